@@ -39,6 +39,8 @@ namespace
     Env g_env;
 
     const int k_errnos[] = {ENOENT, EACCES, EIO, ENAMETOOLONG};
+    // errno is part of the environment too: whatever an earlier, unrelated call left there must not matter
+    const int k_stale_errnos[] = {0, EINTR, EAGAIN, ENOENT, ERANGE, ENOMEM, EINVAL, EINTR};
 }
 
 extern "C" ssize_t __real_readlink(const char* path, char* buf, size_t bufsiz);
@@ -159,6 +161,8 @@ namespace
                 continue;
             }
             dirty_stack(mix(plan.seed, run.step, 7));
+            errno = k_stale_errnos[(st.c >> 8) % 8];
+            if (errno == EINTR) SIM_PROBE("stale_EINTR_in_errno_before_the_call");
             g_env.active = true;
             std::string got;
             try
@@ -235,7 +239,7 @@ namespace
             s.op = o < 5 ? OP_EXE : (o < 9 ? OP_PREFIX : OP_ENDIAN);
             s.a = biased_len(pr);
             s.b = pr.next() >> 16;
-            s.c = pr.below(64);
+            s.c = pr.next() >> 40;
             if (s.op != OP_ENDIAN && pr.below(100) < fault_pct) { s.fkind = FK_SYSCALL; s.fk = pr.below(4); }
             plan.steps.push_back(s);
         }
@@ -248,7 +252,7 @@ namespace
         for (uint64_t len = 2; len <= PATH_MAX - 1; ++len)
         {
             Step s;
-            s.op = OP_EXE; s.a = len - 2; s.b = pr.next() >> 16; s.c = pr.below(64);
+            s.op = OP_EXE; s.a = len - 2; s.b = pr.next() >> 16; s.c = pr.next() >> 40;
             plan.steps.push_back(s);
             if (len % 8 == phase) { Step p = s; p.op = OP_PREFIX; plan.steps.push_back(p); }
             Step f = s; f.fkind = FK_SYSCALL; f.fk = len % 4; if (len % 2) f.op = OP_PREFIX;
